@@ -117,9 +117,19 @@ def node_wrapper(node, prop, seed, tier, known, ev, results):
             picks.append((req, rec))
     table = {}
     hist = []
-    for i, (req, rec) in enumerate(picks):
-        table[native_key(req['src'], req['file'])] = {"result": {"content": rec['content'], "metrics": rec['metrics'], "literalsResult": rec.get('literals')}}
-        hist.append({"id": i, "steps": [{"file": req['file'], "code": req['src'], "lookups": []}]})
+    groups = []
+    # one Rewriter instance per history; every second history rewrites the *same file name* again with a
+    # different text (an edited file that is loaded again): each call must answer for the text it was given
+    i = 0
+    while i < len(picks):
+        n = 1 if (i // 2) % 2 == 0 else min(3, len(picks) - i)
+        grp = picks[i:i + n]
+        file0 = grp[0][0]['file']
+        for req, rec in grp:
+            table[native_key(req['src'], file0)] = {"result": {"content": rec['content'], "metrics": rec['metrics'], "literalsResult": rec.get('literals')}}
+        hist.append({"id": len(hist), "steps": [{"file": file0, "code": req['src'], "lookups": []} for req, rec in grp]})
+        groups.append(grp)
+        i += n
     violations = []
     if hist:
         import tempfile
@@ -135,15 +145,19 @@ def node_wrapper(node, prop, seed, tier, known, ev, results):
         if p.returncode != 0:
             raise vlib.BuildError('node wrapper job failed: ' + (p.stderr or '')[-500:])
         res = json.loads(p.stdout)
-        for (req, rec), h in zip(picks, res['histories']):
+        for grp, h in zip(groups, res['histories']):
             if 'error' in h:
-                violations.append(('C12:package-wrapper-threw', req, rec, h['error'][:300]))
+                violations.append(('C12:package-wrapper-threw', grp[0][0], grp[0][1], h['error'][:300]))
                 continue
-            st = h['steps'][0]
-            if rec['status'] == 'NotModified' and not st['sameText']:
-                violations.append(('C12:not-modified-result-is-not-the-callers-text', req, rec, ''))
-            if rec['status'] == 'Modified' and st['sameText']:
-                violations.append(('C12:modified-result-returns-the-input-text', req, rec, ''))
+            for k, ((req, rec), st) in enumerate(zip(grp, h['steps'])):
+                where = '' if k == 0 else 'call %d for the same file name, after %s' % (k + 1, json.dumps([g[0]['src'][:80] for g in grp[:k]]))
+                want = 'notmodified' if rec['status'] == 'NotModified' else 'modified'
+                if rec['status'] == 'NotModified' and not st['sameText']:
+                    violations.append(('C12:not-modified-result-is-not-the-callers-text', req, rec, where))
+                if rec['status'] == 'Modified' and st['sameText']:
+                    violations.append(('C12:modified-result-returns-the-input-text', req, rec, where))
+                if (st.get('status') or '').lower() != want:
+                    violations.append(('C12:package-wrapper-reports-another-status', req, rec, '%s vs %s %s' % (st.get('status'), want, where)))
     ev['coverage']['node_wrapper'] = {'results_through_main_js': len(picks), 'not_modified': nm, 'modified': mod}
     return violations, {}, ''
 
@@ -223,6 +237,14 @@ def run_history(prop, spec, seed, tier, known, ev):
     bmap = encode_map([(k, c, k, 3 + k, c, None) for k in range(7) for c in (0, 9, 20)], ["src/part%d.ts" % k for k in range(7)], [], None)
     pool.append(bundle + "\n//# sourceMappingURL=data:application/json;base64," + _b64.b64encode(bmap.encode()).decode())
     pool.append("var nothingToDo = 1;\n//# sourceMappingURL=data:application/json;base64," + _b64.b64encode(bmap.encode()).decode())
+    # the same file name rewritten again with another text and another original map (an edited file loaded again)
+    mapped = []
+    for k in range(5):
+        body = "function v%d(a, b) { return a + b + %d }" % (k, k)
+        mp = encode_map([(0, 0, 0, k, 0, None), (0, 9 + k, 0, k, 4, None)], ["version%d.ts" % k], [], None)
+        mapped.append(body + "\n//# sourceMappingURL=data:application/json;base64," + _b64.b64encode(mp.encode()).decode())
+    mapped += [x for x in pool if 'sourceMappingURL' in x]
+    pool += mapped[:5]
     cfgs = [dict(vlib.DEFAULT_CFG, chainSourceMap=True), dict(vlib.DEFAULT_CFG, localVarPrefix="other", chainSourceMap=True, comments=True),
             {"localVarPrefix": "zz", "csiMethods": [{"src": "plusOperator", "operator": True}], "telemetryVerbosity": "OFF", "chainSourceMap": True},
             dict(vlib.DEFAULT_CFG, localVarPrefix="first")]
@@ -234,9 +256,10 @@ def run_history(prop, spec, seed, tier, known, ev):
         g = r.fork()
         ln = 3 + g.below(10)
         hist = []
+        heavy = g.chance(1, 3)     # mostly files with an original map, few file names
         for i in range(ln):
-            hist.append({"id": "h%d-%d" % (h, i), "cfg": g.choice(cfgs), "src": g.choice(pool),
-                         "file": g.choice(["a.js", "b.js", "dir/c.js"]), "ast": False, "fresh": g.chance(1, 8)})
+            hist.append({"id": "h%d-%d" % (h, i), "cfg": g.choice(cfgs), "src": g.choice(mapped if heavy and not g.chance(1, 4) else pool),
+                         "file": g.choice(["a.js", "b.js"] if heavy else ["a.js", "b.js", "dir/c.js"]), "ast": False, "fresh": g.chance(1, 8)})
         recs = vlib.run_harness(hist)
         # every call alone, each in its own process
         alone = []
@@ -616,6 +639,10 @@ def trace_program(g):
     """functions that call a thrower at generator-known lines"""
     lines = ["function boom(){ throw new Error('x') }"]
     calls = []
+    if g.chance(1, 3):
+        # the text of a map reference inside the code (a bundler plugin's footer string): the trailer the
+        # rewriter appends is the *last* one
+        lines.append("function footer(name){ return '\\n//# sourceMappingURL=' + name + '.map'; }")
     n = 2 + g.below(4)
     for k in range(n):
         shape = g.below(5)
